@@ -370,8 +370,9 @@ def check_property(prop, tier, seed):
     undecided = []
     known_hits = []
     unit_results = []
-    units = cfg.get('units', [])
-    with cf.ThreadPoolExecutor(max_workers=max(1, min(4, len(units) or 1))) as ex:
+    dep_units = [u for u in cfg.get('dep_units', []) if u not in cfg.get('units', [])]
+    units = cfg.get('units', []) + dep_units
+    with cf.ThreadPoolExecutor(max_workers=max(1, min(6, len(units) or 1))) as ex:
         futs = [ex.submit(run_unit, u, tier, seed) for u in units]
         kfut = None
         if cfg.get('kani'):
@@ -387,6 +388,23 @@ def check_property(prop, tier, seed):
     rewrites = {}
     smt_us = 0
     for ur in unit_results:
+        if ur.undecided and (ur.changed or not ur.meta):
+            # The verifier could not process the CHANGED text of this unit (unsupported construct, lost anchor, ...): the
+            # obligation is undecided.  Fallback (bounded, labelled as such): the unit's native witness search looks for a
+            # concrete failing input of the real code; a failing input replayed on the real code IS a violation.
+            from config import WITNESS_SEARCH
+            ws = WITNESS_SEARCH.get(ur.unit)
+            if ws:
+                rc_w, out_w = native_replay(ws[0], [str(a).replace('$SEED', str(seed + 1)) for a in ws[1]])
+                if rc_w == 1:
+                    payload = {'property': prop, 'unit': ur.unit, 'function': None,
+                               'failed_obligation': {'labels': [], 'message': 'verifier could not process the changed text: ' + '; '.join(ur.undecided)[:600]},
+                               'verifier': 'verus (undecided) + native witness search (bounded random search, NOT a proof step)',
+                               'verifier_output': '; '.join(ur.undecided), 'changed_items_vs_baseline': ur.changed,
+                               'failing_input': out_w.split('\n')[0],
+                               'native_replay': {'case': ws[0], 'args': ws[1], 'output': out_w, 'confirmed_on_real_code': True},
+                               'note': 'Deductive verification of the changed text is undecided; the violation is established by a concrete failing input found by the native witness search and replayed on the real code.'}
+                    violations.append(('%s_witness' % ur.unit, payload, True))
         for u in ur.undecided:
             undecided.append('%s: %s' % (ur.unit, u))
         if ur.meta:
@@ -396,12 +414,17 @@ def check_property(prop, tier, seed):
                 rewrites[r] = rewrites.get(r, 0) + k
         relevant_fail = []
         for fl in ur.failures:
-            if prop in fl['props'] or (not fl['props']):
+            # a failure counts for this property when the failing clause/function is labelled with it, or when it occurs in a
+            # dependency unit: the property's theorem ASSUMES that unit's contract (e.g. C01 assumes the Fringe contract),
+            # so a collaborator that no longer meets its contract breaks the property for the configurations using it
+            if prop in fl['props'] or (not fl['props']) or ur.unit in dep_units:
+                if ur.unit in dep_units and prop not in fl['props']:
+                    fl = dict(fl, message='%s  [dependency unit %s: a collaborator contract assumed by %s no longer holds]' % (fl['message'], ur.unit, prop))
                 relevant_fail.append(fl)
         for r in ur.functions + ur.lemmas:
             smt_us += r.get('smt_time_us') or 0
         for r in ur.functions:
-            serves = (prop in r['props']) or not r['props']
+            serves = (prop in r['props']) or not r['props'] or ur.unit in dep_units
             functions_ev.append(dict(r, unit=ur.unit, serves_property=serves))
         # an obligation = one contracted real function (all its VCs) or one prelude lemma of the unit
         failed_fns = set(fl['fn'] for fl in ur.failures)
@@ -441,7 +464,23 @@ def check_property(prop, tier, seed):
                 payload['diff_vs_baseline'] = diffs
             except Exception as ex:
                 payload['diff_vs_baseline'] = 'unavailable: %r' % (ex,)
-            violations.append(('%s_%s_%s' % (ur.unit, fl['fn'], '-'.join(fl['labels'])[:60]), payload, False))
+            key = '%s_%s' % (ur.unit, fl['fn'])
+            prev = [v for v in violations if v[0] == key]
+            if prev:
+                prev[0][1].setdefault('more_failed_obligations', []).append({'labels': fl['labels'], 'message': fl['message'], 'verifier_output': fl['rendered']})
+            else:
+                # witness search: a native driver that looks for a concrete failing input of the real code
+                from config import WITNESS_SEARCH
+                ws = WITNESS_SEARCH.get(ur.unit)
+                has_input = False
+                if ws:
+                    rc, out = native_replay(ws[0], [str(a).replace('$SEED', str(seed + 1)) for a in ws[1]])
+                    payload['native_replay'] = {'case': ws[0], 'args': ws[1], 'output': out, 'confirmed_on_real_code': rc == 1}
+                    if rc == 1:
+                        payload['failing_input'] = out.split('\n')[0]
+                        payload['note'] = 'Verus gives no counterexample; a failing input of the real code was found by the native witness search below.'
+                        has_input = True
+                violations.append((key, payload, has_input))
         if ur.meta:
             for f in ur.functions[:3]:
                 samples.append({'obligation': 'all VCs of %s (%s:%s)' % (f['key'], f['file'], f['line']), 'verified': f.get('verified'),
